@@ -97,8 +97,8 @@ class ExcelArrayOps(object):
         self.arr = arr
 
     def adapt_value(self, value):
-        if isinstance(value, list) and len(value) == 1:
-            value = value[0]
+        if isinstance(value, list) and len(value) == 1 and len(self.arr) != 1:
+            value = value[0]  # (two one-element arrays already have equal length)
         if not isinstance(value, list):
             value = [value for i in range(len(self.arr))]
         return value
